@@ -9,6 +9,9 @@ HF == {<<"a">>, <<"A", "b">>, <<"b", "sp">>, <<"e", "a">>, <<"sp">>}
 Headers == {h \in UNION {[1..k -> HF] : k \in 1..2} : Distinct(NormHeader(h))}
 FieldVals == 1..8      \* 1 plain, 2 with quote, 3 with comma, 4 with newline, 5 non-ASCII, 6 empty, 7/8 values that make (column,value) concatenations coincide
 RecsFor(h) == UNION {[1..n -> [1..Len(h) -> FieldVals]] : n \in 0..(IF Len(h) = 1 THEN MaxRecs ELSE 1)}
+              \* two records under two columns over the plain value and the two values that make concatenations of a
+              \* column name and a value coincide across columns (a + bplain = ab + plain)
+              \cup (IF Len(h) = 2 THEN [1..2 -> [1..2 -> {1, 7, 8}]] ELSE {})
 CSVs == UNION {{[header |-> h, records |-> r, defect |-> "none"] : r \in RecsFor(h)} : h \in Headers}
         \cup {[header |-> h, records |-> <<[j \in 1..Len(h) |-> 1], [j \in 1..Len(h) |-> 5]>>, defect |-> d] : h \in Headers, d \in {"ragged", "barequote"}}
 Pre == {AbsentOut, [kind |-> "other", rows |-> <<>>], [kind |-> "index", rows |-> <<(<<2>> :> 1)>>]}
